@@ -188,8 +188,12 @@ func c15Decode(api string, data []byte, o DecOpt) string {
 		_, isObj := ref.(map[string]interface{})
 		_, isArr := ref.([]interface{})
 		switch {
-		case rerr == nil && (isObj || isArr) && err != nil:
-			notes = append(notes, "JSONFIRST encoding/json accepts the first value (an object or array) but NewMapJson failed: "+oneLine(err.Error()))
+		case rerr == nil && isArr && err != nil:
+			// (recorded finding F-JSON-ARRAYTAIL: a top-level array is decoded inside a wrapper object,
+			// so whatever follows the array is read as part of that object)
+			notes = append(notes, "JSONARRAYTAIL NewMapJson rejects a text whose first value is an array encoding/json accepts, because of what follows the array: "+oneLine(err.Error()))
+		case rerr == nil && isObj && err != nil:
+			notes = append(notes, "JSONFIRST encoding/json accepts the first value (an object) but NewMapJson failed: "+oneLine(err.Error()))
 		case rerr != nil && err == nil && len(data) > 0: // ("empty or nil begets empty" is documented)
 			notes = append(notes, "JSONFIRST encoding/json rejects the first value but NewMapJson returned a Map")
 		}
